@@ -403,6 +403,11 @@ def pytask_collect_node(  # noqa: C901, PLR0912
                 node.root_dir, session.config["check_casing_of_paths"]
             )
 
+        elif not isinstance(node.root_dir, UPath):
+            # Absolute local directories are normalized as well, otherwise ``a/../b`` and
+            # ``b`` are two different nodes and producers lose their consumers.
+            node.root_dir = Path(os.path.normpath(node.root_dir))
+
         if (
             not node.name
             or node.name == node.root_dir.joinpath(node.pattern).as_posix()
